@@ -1,6 +1,7 @@
 mod client;
 mod daemon;
 mod shm;
+mod ra;
 mod wire;
 mod rng;
 mod util;
@@ -16,6 +17,7 @@ fn exec_line(line: &str) -> String {
         Some("client2") => client::exec2(&toks),
         Some("extract") => daemon::exec_extract(&toks),
         Some("gen") => shm::exec_gen(&toks),
+        Some("sl") => ra::exec_sl(line),
         Some("upd") => daemon::exec_upd(line),
         _ => "bad-op".into(),
     }
@@ -61,6 +63,12 @@ fn main() {
             for _ in 0..count { emit(daemon::gen_extract(&mut rng)); }
         }
         Some("genall") => { drop(emit); shm::gen_all(|req, ans| { writeln!(out, "{} => {}", req, ans).unwrap(); }); }
+        Some("slgen") => {
+            let seed: u64 = args[2].parse().unwrap();
+            let count: usize = args[3].parse().unwrap();
+            drop(emit);
+            ra::generate(seed, count, |req, ans| { writeln!(out, "{} => {}", req, ans).unwrap(); });
+        }
         Some("leapgrid") => { for g in daemon::leap_grid() { emit(g); } }
         Some("upd") => {
             let seed: u64 = args[2].parse().unwrap();
